@@ -267,6 +267,7 @@ TEMPLATE_SRC = [
     ("messy", None),
     ("messy", "cif"),
     ("file", None),
+    ("single", None),  # one atom at the origin of an R-lattice group: a one-atom primitive cell
 ]
 # (first query, last query): every memo state before the mutator x every
 # query after it, plus every export before x every export after it (a file
@@ -300,13 +301,20 @@ def template_run(verif_seed, index, stratum="template"):
     q1, mut, q2, (content, via) = template_of(index)
     if content == "file":
         spec = {"kind": "file", "name": "r3c_example.cif"}
+    elif content == "single":
+        number, choice = rng.choice(sources.RGROUPS), rng.choice("HR")
+        spec = {"kind": "synthetic", "content": "special", "sg": [int(number), choice],
+                "cell": [float(v) for v in sources._cell_for(rng, number, choice)],
+                "elements": [rng.choice(["Fe", "Cl", "O", "C"])], "frac": [[0.0, 0.0, 0.0]],
+                "occupation": None, "via": rng.choice([None, "cif"]), "quirks": None, "labels": None}
     else:
         while True:
             spec = sources.gen_spec(rng, kind=content)
             if spec["sg"][0] in sources.RGROUPS:
                 break
-        spec["via"] = via
-        if via != "cif":
+        if content != "single":
+            spec["via"] = via
+        if spec.get("via") != "cif":
             spec["quirks"] = None
     A = gen_args(rng, is_large(spec))
     ref_mode = ref_mode_for(rng)
